@@ -546,3 +546,91 @@ def run(ck):
                          ' [the super class of a component is whatever its root type name resolves to: the order of the import stack is part of the class graph]')
     c18.run(s18)
     ck.floor('R17.13', s18.count, 4, 'shared C18 R18.4 obligations')
+
+    # a directory module is one module whichever way its path is spelled (C18 R18.1k / R18.1n)
+    ck.rule('R17.14', 'a directory import and the directory it names are one module: keys are normalised paths (shared with C18)')
+    s18k = _core13.Shared(ck, 'R17.14', lambda r, k: r in ('R18.1k', 'R18.1n'), 'C18:',
+                          ' [a module recorded under an un-normalised key is loaded twice: the super class of the importing component is a copy, and derivation tests against the original fail]')
+    c18.run(s18k)
+    ck.floor('R17.14', s18k.count, 3, 'shared C18 R18.1k / R18.1n obligations')
+
+    # ---- R17.15 the name a class is registered under is the last component of its qualified name -------------------------------------------------
+    ck.rule('R17.15', 'a class built from a qualified name is registered under the last `::` component')
+    ck.explanation += (' R17.14 re-files C18 R18.1k/R18.1n (directory module keys are normalised paths). R17.15 evaluates the splitting chain of metatype::unqualify_name on '
+                       'A::B::C, A::B, A and expects the last component.')
+    un = L.fn('metatype::unqualify_name')
+    if un is None:
+        users = [f for f in L.fn_list if f['path'].startswith('metatype::Class::') and f['name'] in ('new', 'new_gadget', 'with_supers')]
+        ck.floor('R17.15', 0 if users else 1, 1, 'fn metatype::unqualify_name (or no by-name Class constructors)')
+    else:
+        ck.analysed(un['path'])
+        res = [last_component_eval(un, s_) for s_ in ('A::B::C', 'A::B', 'A')]
+        want = ['C', 'B', 'A']
+        ck.ob('R17.15', 'class-name-is-the-last-component', res == want, L.loc(un['body']),
+              'unqualify_name: A::B::C -> C, A::B -> B, A -> A' if res == want else
+              'unqualify_name gives %s for A::B::C, A::B, A (expected C, B, A; None = expression not understood): a class in a nested scope is registered under a name no lookup asks for' % res, fn=un['path'])
+        callers = [f['path'] for f in L.fn_list if f.get('body') is not None and any(H.is_call_to(c, 'unqualify_name') for c in H.calls_in(f['body']))]
+        ck.floor('R17.15', len(callers), 3, 'Class constructors that unqualify the name')
+
+
+def last_component_eval(fn, sample):
+    """evaluate a small str-splitting chain over the first parameter of fn on a sample string; None if a step is not understood"""
+    ph = {b['hid'] for b in H.pat_bindings(fn['params'][0])} if fn.get('params') else set()
+    rets = list(H.return_exprs(fn['body']))
+    if len(rets) != 1:
+        return None
+
+    def ev(e):
+        e = H.strip_refs(e)
+        k = e.get('k')
+        if k == 'Path' and e.get('hid') in ph:
+            return sample
+        if k == 'Lit' and isinstance(e.get('v'), str):
+            return e['v']
+        if k != 'MCall':
+            raise ValueError(k)
+        m = e['m']
+        recv = ev(e['recv'])
+        args = e['args']
+        if m in ('split_once', 'rsplit_once') and isinstance(recv, str):
+            sep = ev(args[0])
+            if sep not in recv:
+                return ('none',)
+            l, _, r = recv.partition(sep) if m == 'split_once' else recv.rpartition(sep)
+            return ('some', (l, r))
+        if m in ('split', 'rsplit') and isinstance(recv, str):
+            parts = recv.split(ev(args[0]))
+            return ('iter', parts if m == 'split' else parts[::-1])
+        if m in ('last', 'next') and isinstance(recv, tuple) and recv[0] == 'iter':
+            if not recv[1]:
+                return ('none',)
+            return ('some', recv[1][-1] if m == 'last' else recv[1][0])
+        if m == 'map' and isinstance(recv, tuple) and recv[0] in ('some', 'none'):
+            if recv[0] == 'none':
+                return recv
+            cl = H.strip_refs(args[0])
+            if cl.get('k') != 'Closure' or len(cl.get('params', [])) != 1:
+                raise ValueError('map')
+            pat = cl['params'][0]
+            body = H.strip_refs(cl['body'])
+            while body.get('k') == 'Block' and not body.get('stmts') and 'e' in body:
+                body = H.strip_refs(body['e'])
+            if body.get('k') != 'Path':
+                raise ValueError('map body')
+            if pat.get('k') == 'PTup' and isinstance(recv[1], tuple):
+                for i, sp in enumerate(pat['subs']):
+                    if any(b['hid'] == body.get('hid') for b in H.pat_bindings(sp)):
+                        return ('some', recv[1][i])
+            if pat.get('k') == 'Bind' and pat.get('hid') == body.get('hid'):
+                return recv
+            raise ValueError('map pattern')
+        if m == 'unwrap_or' and isinstance(recv, tuple) and recv[0] in ('some', 'none'):
+            return recv[1] if recv[0] == 'some' else ev(args[0])
+        if m in ('unwrap', 'expect') and isinstance(recv, tuple) and recv[0] == 'some':
+            return recv[1]
+        raise ValueError(m)
+    try:
+        v = ev(rets[0])
+    except (ValueError, KeyError, IndexError, TypeError):
+        return None
+    return v if isinstance(v, str) else None
